@@ -552,12 +552,256 @@ def run(ctx, rep, cases=None):
     if cases is None:
         cases = [make_case(ctx, i) for i in range(ctx.scale(110, 1200))]
     evaluate(ctx, rep, cases)
+    opaque_streams(ctx, rep)
 
 
 def replay(ctx, obj):
     rep = common.Report(ctx)
     lean = common.lean_check("C06")
     inp = (obj.get("failing_input") or obj.get("first"))["input"]
+    if inp.get("kind") == "polygon":
+        poly_case(rep, [(Fr(a), Fr(b)) for a, b in inp["vertices"]], 0, 0, fixed=inp["point"])
+        rep.case(dict(replay=inp), True)
+        return common.finish(ctx, rep, lean)
+    if inp.get("kind") == "polyhedron":
+        mesh_case(rep, [[Fr(a) for a in v] for v in inp["vertices"]], inp["faces"], 0, 0, fixed=inp["point"])
+        rep.case(dict(replay=inp), True)
+        return common.finish(ctx, rep, lean)
     case = dict(id=0, mode="replay", wrap=inp["wrap"], dom=inp["dom"], params=inp["params"], envs=[inp["env"]], n=1, seed=0, m=0)
     evaluate(ctx, rep, [case], fixed=[[(inp["point"], 0)]])
     return common.finish(ctx, rep, lean)
+
+
+# ---------------------------------------------------------------------------------------------
+# opaque primitives (not modelled in Lean): ShapelyPolygon, TrimeshPolyhedron — property oracles only.
+# Membership for the step test is computed by the harness in exact rational arithmetic, independently of
+# shapely / trimesh: even-odd crossing number for simple polygons, half-space test for convex polyhedra.
+
+DIRS16 = [(4, 0), (4, 2), (3, 3), (2, 4), (0, 4), (-2, 4), (-3, 3), (-4, 2), (-4, 0), (-4, -2), (-3, -3), (-2, -4),
+          (0, -4), (2, -4), (3, -3), (4, -2)]
+
+
+def poly_contains(verts, q):
+    """even-odd rule, exact (q is never on an edge in the step test; returns None if it is)"""
+    x, y = q
+    inside = False
+    n = len(verts)
+    for i in range(n):
+        (x1, y1), (x2, y2) = verts[i], verts[(i + 1) % n]
+        cr = (x2 - x1) * (y - y1) - (y2 - y1) * (x - x1)
+        if cr == 0 and min(x1, x2) <= x <= max(x1, x2) and min(y1, y2) <= y <= max(y1, y2):
+            return None
+        if (y1 > y) != (y2 > y):
+            xi = x1 + (y - y1) * (x2 - x1) / (y2 - y1)
+            if xi > x:
+                inside = not inside
+    return inside
+
+
+def gen_polygon(rng):
+    k = rng.choice([3, 4, 5, 6, 7, 8])
+    while True:
+        idx = sorted(rng.sample(range(16), k))
+        # star-shaped around the centre: consecutive directions less than a half turn apart
+        if all(((idx[(i + 1) % k] - idx[i]) % 16) < 8 for i in range(k)):
+            break
+    cx, cy = Fr(rng.randint(-16, 16), 8), Fr(rng.randint(-16, 16), 8)
+    verts = []
+    for i in idx:
+        r = Fr(rng.randint(2, 8), 8)
+        verts.append((cx + r * DIRS16[i][0], cy + r * DIRS16[i][1]))
+    if rng.random() < 0.5:
+        verts.reverse()          # clockwise input is allowed by the constructor
+    return verts
+
+
+def opaque_point_oracles(rep, what, inp, p, nv, pieces, contains, src):
+    """pieces: list of (distance from p, id); contains(q: list of Fraction) -> bool|None"""
+    rep.count(what + ":points")
+    if not all(math.isfinite(a) for a in nv):
+        rep.fail(f"{what}: normal() returned a non-finite vector {nv} at a boundary point ({src})", inp, detail=dict(normal=nv))
+        return
+    ln = math.sqrt(sum(a * a for a in nv))
+    if abs(ln - 1) > UNIT_TOL:
+        rep.fail(f"{what}: normal() returned {nv} of length {ln:.6g}, not a unit vector ({src})", inp, detail=dict(normal=nv))
+    scale = inp["_scale"]
+    eta = 1e-6 * max([1.0] + [abs(a) for a in p])
+    on = [d for d in pieces if d <= 1e-4 * scale + eta]
+    other = [d for d in pieces if d > 1e-4 * scale + eta]
+    if len(on) != 1:
+        rep.count(f"{what}:step-skipped:" + ("off-boundary" if not on else "edge-or-corner"))
+        return
+    eps = 4e-3 * scale
+    if other:
+        eps = min(eps, 0.4 * min(other))
+    if eps < 10 * eta:
+        rep.count(f"{what}:step-skipped:crowded")
+        return
+    e = Fr(int(eps * 2 ** 30), 2 ** 30)
+    pf = [to_fr(a) for a in p]; nf = [to_fr(a) for a in nv]
+    o = contains([a + e * b for a, b in zip(pf, nf)])
+    i = contains([a - e * b for a, b in zip(pf, nf)])
+    rep.count(what + ":step-tested")
+    if o is not False or i is not True:
+        rep.fail(f"{what}: normal {nv} at boundary point {p} does not point outwards: p + εn inside = {o}, p − εn inside = {i} "
+                 f"(ε = {eps:.3g}, exact membership computed by the harness; no other edge / face within 2.5ε; {src})",
+                 {k_: v_ for k_, v_ in inp.items() if not k_.startswith("_")}, detail=dict(normal=nv, eps=eps))
+
+
+def poly_case(rep, verts, seed, n, fixed=None):
+    tp = common.use_repo()
+    import torch
+    from torchphysics.problem.domains.domain2D.shapely_polygon import ShapelyPolygon
+    X = tp.spaces.R2("x")
+    P = ShapelyPolygon(X, vertices=[[float(a), float(b)] for a, b in verts])
+    B = P.boundary
+    fl = [(float(a), float(b)) for a, b in verts]
+    segs = [(fl[i], fl[(i + 1) % len(fl)]) for i in range(len(fl))]
+    scale = min(math.dist(a, b) for a, b in segs)
+    rows = []
+    if fixed is not None:
+        rows = [([float(Fr(a)) for a in fixed], "replay")]
+    else:
+        torch.manual_seed(seed)
+        for how in ("random", "grid"):
+            try:
+                fn = B.sample_random_uniform if how == "random" else B.sample_grid
+                s = common.call_with_timeout(5, fn, n=n)
+                t = s.as_tensor
+                if tuple(t.shape) != (n, 2) or not bool(torch.isfinite(t).all()):
+                    rep.count("polygon:sampler-wrong-output:" + how)
+                    continue
+                rows += [(r, how) for r in t.tolist()]
+            except Exception:
+                rep.count("polygon:sampler-raised:" + how)
+        # edge midpoints (exact dyadic points of the boundary)
+        rows += [([(a[0] + b[0]) / 2, (a[1] + b[1]) / 2], "constructed-edge") for a, b in segs]
+    if not rows:
+        return 0
+    pts = tp.spaces.Points(torch.tensor([r for r, _ in rows], dtype=torch.float32), X)
+    base = dict(kind="polygon", vertices=[[str(a), str(b)] for a, b in verts])
+    try:
+        nv = torch.as_tensor(B.normal(pts)).to(torch.float64).tolist()
+    except Exception as e:  # noqa
+        rep.fail(f"polygon: normal() raised {type(e).__name__}: {str(e)[:160]} at points of its own boundary", dict(base, point=[str(to_fr(a)) for a in rows[0][0]]))
+        return len(rows)
+    for (p, src), v in zip(rows, nv):
+        p32 = [f32(a) for a in p]
+        inp = dict(base, point=[str(to_fr(a)) for a in p32], point_float=p32, source=src, _scale=scale)
+        opaque_point_oracles(rep, "polygon", inp, p32, v, [seg_dist(p32, a, b) for a, b in segs],
+                             lambda q: poly_contains(verts, q), src)
+    return len(rows)
+
+
+def gen_polyhedron(rng):
+    """convex polyhedra with dyadic vertices: boxes and tetrahedra; faces as vertex index triples"""
+    o = [Fr(rng.randint(-8, 8), 4) for _ in range(3)]
+    if rng.random() < 0.5:
+        ext = [Fr(rng.randint(2, 12), 4) for _ in range(3)]
+        V = [[o[0] + a * ext[0], o[1] + b * ext[1], o[2] + c_ * ext[2]] for a in (0, 1) for b in (0, 1) for c_ in (0, 1)]
+        F = [[0, 1, 3], [0, 3, 2], [4, 6, 7], [4, 7, 5], [0, 4, 5], [0, 5, 1], [2, 3, 7], [2, 7, 6], [0, 2, 6], [0, 6, 4], [1, 5, 7], [1, 7, 3]]
+    else:
+        while True:
+            V = [o] + [[o[j] + Fr(rng.randint(-8, 8), 4) for j in range(3)] for _ in range(3)]
+            a, b, c_ = [[V[i][j] - V[0][j] for j in range(3)] for i in (1, 2, 3)]
+            det = a[0] * (b[1] * c_[2] - b[2] * c_[1]) - a[1] * (b[0] * c_[2] - b[2] * c_[0]) + a[2] * (b[0] * c_[1] - b[1] * c_[0])
+            if abs(det) >= 2:
+                break
+        F = [[0, 1, 2], [0, 1, 3], [0, 2, 3], [1, 2, 3]]
+    if rng.random() < 0.5:
+        F = [f[::-1] for f in F]     # either winding; the constructor calls fix_normals()
+    return V, F
+
+
+def planes_of(V, F):
+    """outward (un-normalised, exact) face planes of a convex polyhedron: (normal, point)"""
+    ctr = [sum(v[j] for v in V) / len(V) for j in range(3)]
+    out = []
+    for f in F:
+        a, b, c_ = V[f[0]], V[f[1]], V[f[2]]
+        u = [b[j] - a[j] for j in range(3)]; w = [c_[j] - a[j] for j in range(3)]
+        nrm = [u[1] * w[2] - u[2] * w[1], u[2] * w[0] - u[0] * w[2], u[0] * w[1] - u[1] * w[0]]
+        if sum(nrm[j] * (ctr[j] - a[j]) for j in range(3)) > 0:
+            nrm = [-x for x in nrm]
+        out.append((nrm, a))
+    return out
+
+
+def mesh_case(rep, V, F, seed, n, fixed=None):
+    tp = common.use_repo()
+    import torch
+    from torchphysics.problem.domains.domain3D.trimesh_polyhedron import TrimeshPolyhedron
+    Z = tp.spaces.R3("z")
+    P = TrimeshPolyhedron(Z, vertices=[[float(a) for a in v] for v in V], faces=F)
+    B = P.boundary
+    planes = planes_of(V, F)
+    # distinct planes (two triangles of a box side share one)
+    uniq = []
+    for nrm, a in planes:
+        L = math.sqrt(sum(float(x) ** 2 for x in nrm))
+        key = tuple(round(float(x) / L, 9) for x in nrm) + (round(sum(float(nrm[j]) * float(a[j]) for j in range(3)) / L, 9),)
+        if key not in [k for k, _, _ in uniq]:
+            uniq.append((key, nrm, a))
+    scale = min(math.dist([float(x) for x in V[f[i]]], [float(x) for x in V[f[(i + 1) % 3]]]) for f in F for i in range(3))
+    rows = []
+    if fixed is not None:
+        rows = [([float(Fr(a)) for a in fixed], "replay")]
+    else:
+        torch.manual_seed(seed)
+        import numpy as np
+        np.random.seed(seed % (2 ** 31))
+        for how in ("random", "grid"):
+            try:
+                fn = B.sample_random_uniform if how == "random" else B.sample_grid
+                s = common.call_with_timeout(10, fn, n=n)
+                t = s.as_tensor
+                if t.ndim != 2 or t.shape[1] != 3 or not bool(torch.isfinite(t).all()):
+                    rep.count("polyhedron:sampler-wrong-output:" + how)
+                    continue
+                rows += [(r, how) for r in t.tolist()[: 2 * n]]
+            except Exception:
+                rep.count("polyhedron:sampler-raised:" + how)
+        for f in F:      # face centroids
+            rows.append(([float(sum(V[i][j] for i in f) / 3) for j in range(3)], "constructed-face"))
+    if not rows:
+        return 0
+    pts = tp.spaces.Points(torch.tensor([r for r, _ in rows], dtype=torch.float32), Z)
+    base = dict(kind="polyhedron", vertices=[[str(a) for a in v] for v in V], faces=F)
+    try:
+        nv = torch.as_tensor(B.normal(pts)).to(torch.float64).tolist()
+    except Exception as e:  # noqa
+        rep.fail(f"polyhedron: normal() raised {type(e).__name__}: {str(e)[:160]} at points of its own boundary", dict(base, point=[str(to_fr(a)) for a in rows[0][0]]))
+        return len(rows)
+
+    def contains(q):
+        vals = [sum(nrm[j] * (q[j] - a[j]) for j in range(3)) for _, nrm, a in uniq]
+        if any(v == 0 for v in vals):
+            return None
+        return all(v < 0 for v in vals)
+    for (p, src), v in zip(rows, nv):
+        p32 = [f32(a) for a in p]
+        dists = []
+        for _, nrm, a in uniq:
+            L = math.sqrt(sum(float(x) ** 2 for x in nrm))
+            dists.append(abs(sum(float(nrm[j]) * (p32[j] - float(a[j])) for j in range(3))) / L)
+        inp = dict(base, point=[str(to_fr(a)) for a in p32], point_float=p32, source=src, _scale=scale)
+        opaque_point_oracles(rep, "polyhedron", inp, p32, v, dists, contains, src)
+    return len(rows)
+
+
+def opaque_streams(ctx, rep):
+    rng = ctx.rng
+    for i in range(ctx.scale(14, 120)):
+        verts = gen_polygon(rng)
+        seed = rng.randint(0, 2 ** 31 - 1)
+        k = poly_case(rep, verts, seed, rng.choice([6, 12, 20]))
+        rep.count("mode:polygon")
+        rep.case(dict(polygon=[[str(a), str(b)] for a, b in verts]), k > 0, kind="polygon",
+                 sample=dict(expression="ShapelyPolygon", vertices=[[float(a), float(b)] for a, b in verts], points=k))
+    for i in range(ctx.scale(8, 60)):
+        V, F = gen_polyhedron(rng)
+        seed = rng.randint(0, 2 ** 31 - 1)
+        k = mesh_case(rep, V, F, seed, rng.choice([6, 12]))
+        rep.count("mode:polyhedron")
+        rep.case(dict(polyhedron=[[str(a) for a in v] for v in V], faces=F), k > 0, kind="polyhedron",
+                 sample=dict(expression="TrimeshPolyhedron", vertices=[[float(a) for a in v] for v in V], faces=F, points=k))
